@@ -12,6 +12,38 @@ open TonVerif
 
 namespace Blk
 
+/-! ### augmented dictionaries (`Slice.load_hashmap_aug_e`) -/
+
+/-- entries `(key bits, view of the leaf value)` of the tree value `tv` of `hashmapAugF X Y fuel n`, left to right -/
+def flattenAug (w : Val → Val) : Nat → Nat → Bits → Val → List (Bits × Val)
+  | 0, _, _, _ => []
+  | fuel+1, n, pfx, tv =>
+    let lv := tv.get "label"
+    let nv := tv.get "node"
+    let l := labelLen lv
+    let key := pfx ++ Rd.labelBitsOf lv
+    if n - l = 0 then [(key, w (nv.get "value"))]
+    else flattenAug w fuel (n - l - 1) (key ++ [false]) (nv.get "left") ++ flattenAug w fuel (n - l - 1) (key ++ [true]) (nv.get "right")
+
+/-- the `extra:Y` of every node of the tree value, in the order `parse_aug` appends them (children first, then the fork's own) -/
+def extrasAug (w : Val → Val) : Nat → Nat → Val → List Val
+  | 0, _, _ => []
+  | fuel+1, n, tv =>
+    let lv := tv.get "label"
+    let nv := tv.get "node"
+    let l := labelLen lv
+    if n - l = 0 then [w (nv.get "extra")]
+    else extrasAug w fuel (n - l - 1) (nv.get "left") ++ extrasAug w fuel (n - l - 1) (nv.get "right") ++ [w (nv.get "extra")]
+
+/-- `HashmapAugE n X Y` as returned by `load_hashmap_aug_e`: the tuple `(dict, extras)`; the top-level `extra:Y` of a non-empty
+    dictionary is read and dropped; an empty one gives `({}, [extra])` -/
+def viewAugE (wx wy : Val → Val) (n : Nat) : Val → Val
+  | .con "ahme_root" r =>
+    Rd.tuple [Rd.dict (flattenAug wx (n + 1) n [] (r.get "root")), Rd.list (extrasAug wy (n + 1) n (r.get "root"))]
+  | .con "ahme_empty" r => Rd.tuple [Rd.dict [], Rd.list [wy (r.get "extra")]]
+  | _ => .unit
+
+
 /-! ### config.py -/
 
 /-- the seven fields every `ConsensusConfig` constructor ends with (before `proto_version`) -/
@@ -136,6 +168,22 @@ def view_Account : Val → Val
 def view_ShardAccount (v : Val) : Val :=
   Rd.obj "ShardAccount" [("account", view_Account (v.get "account")), ("last_trans_hash", v.get "last_trans_hash"),
     ("last_trans_lt", v.get "last_trans_lt")]
+
+/-- `ShardAccounts.deserialize` returns the `(dict, extras)` tuple of `load_hashmap_aug_e` -/
+def view_ShardAccounts : Val → Val := viewAugE view_ShardAccount view_DepthBalanceInfo 256
+
+/-- `OldMcBlocksInfo.deserialize` returns the `(dict, extras)` tuple of `load_hashmap_aug_e` -/
+def view_OldMcBlocksInfo : Val → Val := viewAugE view_KeyExtBlkRef view_KeyMaxLt 32
+
+/-- `BlockCreateStats`: `block_create_stats#17` a `HashmapE 256 CreatorStats` (`load_dict`), `block_create_stats_ext#34` a
+    `HashmapAugE 256 CreatorStats uint32` (`load_hashmap_aug_e`) -/
+def view_BlockCreateStats : Val → Val
+  | .con "block_create_stats" x =>
+    Rd.obj "BlockCreateStats" [("type_", Rd.str "block_create_stats"), ("counters", viewDict view_CreatorStats 256 (x.get "counters"))]
+  | .con "block_create_stats_ext" x =>
+    Rd.obj "BlockCreateStats" [("type_", Rd.str "block_create_stats_ext"),
+      ("counters", viewAugE view_CreatorStats id 256 (x.get "counters"))]
+  | _ => .unit
 
 end Blk
 end TonVerif.Tlb
